@@ -160,3 +160,11 @@ impl<D: DataRef> GLWESecretToRef for GLWESecret<D> {
         }
     }
 }
+
+#[cfg(feature = "verif-hooks")]
+impl<D: DataRef> GLWESecret<D> {
+    /// Read-only view of the clear secret coefficients (verification harness only).
+    pub fn verif_data(&self) -> &ScalarZnx<D> {
+        &self.data
+    }
+}
